@@ -29,12 +29,16 @@ CLAIM = dict(
     "on every run, has as many weights as points, positive weights summing to 2^dim, and integrates every monomial of "
     "per-variable degree <= 2n-1 exactly over [-1,1]^dim (real numbers, Real.sqrt; 1-D also every real polynomial of degree "
     "<= 2n-1 against the interval integral); the unit-cell rule of gauss_reference_cell has weights summing to 1 and is exact "
-    "for the same monomials on [0,1]^dim; the corner rule is exact for multilinear monomials. Proved by a checker "
+    "for the same monomials on [0,1]^dim; the corner rule is exact for multilinear monomials; the rule transport_density sums "
+    "over in each L1 mode (call extracted from wasserstein.py) has non-negative weights summing to 1 and centroid at the cell centre, "
+    "hence integrates every cell-wise affine flux component exactly and ||mean flux|| <= transport density for every seminorm "
+    "(over R for all modes; also on the exact Q model of DarsiaModel.Transport). Proved by a checker "
     "(exact arithmetic in Q(sqrt d), symmetric pairing, permutation of the product grid) shown sound once over the reals "
     "and evaluated by the kernel per table.",
-    note="numpy evaluates the literal expressions in floating point (validated against the symbolic values to 1e-15 on every "
-    "run); N-D exactness is stated for monomials and finite sums thereof (product of 1-D integrals), not via a measure-theoretic "
-    "cube integral.",
+    note="transport_density itself (face_to_cell, norms, the loop over the rule) is tied numerically: real solver objects vs the sum over the "
+    "model's rule, 1e-13; numpy evaluates the literal expressions in floating point (validated against the symbolic values to 1e-15 on every "
+    "run); N-D exactness: for d = 2, 3 every polynomial (term list) of per-variable degree <= 2n-1 against the iterated interval "
+    "integral over the square / cube (both cells); for general d as the product of 1-D integrals; no measure-theoretic cube integral.",
     technique="Lean 4 proof (sound computable checker + decide +kernel per generated table) + G2 extraction validated against the running code + exhaustive oracle",
 )
 
@@ -175,6 +179,61 @@ def extract(source: str):
     return dict(rules=rules, max=mx, default=defaults.pop())
 
 
+L1_LEAN = {"RAVIART_THOMAS": "raviartThomas", "CONSTANT_SUBCELL_PROJECTION": "constantSubcell", "CONSTANT_CELL_PROJECTION": "constantCell"}
+
+
+def extract_l1(source: str):
+    """transport_density: which quadrature call each `self.l1_mode == L1Mode.X` branch makes.
+    -> {mode name: ("cell", order|"max") | ("corners",)}"""
+    tree = ast.parse(source)
+    fn = next((n for n in ast.walk(tree) if isinstance(n, ast.FunctionDef) and n.name == "transport_density"), None)
+    if fn is None:
+        raise ExtractError("no transport_density")
+    chain = next((st for st in fn.body if isinstance(st, ast.If)), None)
+    if chain is None:
+        raise ExtractError("no mode chain")
+    out = {}
+    while True:
+        t = chain.test
+        if not (isinstance(t, ast.Compare) and isinstance(t.left, ast.Attribute) and t.left.attr == "l1_mode" and len(t.ops) == 1
+                and isinstance(t.ops[0], ast.Eq) and isinstance(t.comparators[0], ast.Attribute)):
+            raise ExtractError("mode test")
+        mode = t.comparators[0].attr
+        st = chain.body[0]
+        if not (isinstance(st, ast.Assign) and isinstance(st.value, ast.Call) and isinstance(st.value.func, ast.Attribute)):
+            raise ExtractError("mode branch is not `pts, w = darsia.quadrature.<rule>(...)`")
+        name, args = st.value.func.attr, st.value.args
+        if not (args and isinstance(args[0], ast.Attribute) and args[0].attr == "dim"):
+            raise ExtractError("first argument is not the grid dimension")
+        if name == "gauss_reference_cell" and len(args) == 2 and isinstance(args[1], ast.Constant) and (args[1].value == "max" or isinstance(args[1].value, int)):
+            out[mode] = ("cell", args[1].value)
+        elif name == "reference_cell_corners" and len(args) == 1:
+            out[mode] = ("corners",)
+        else:
+            raise ExtractError(f"unknown rule call {name}")
+        if len(chain.orelse) == 1 and isinstance(chain.orelse[0], ast.If):
+            chain = chain.orelse[0]
+        else:
+            break
+    if set(out) != set(L1_LEAN):
+        raise ExtractError(f"modes {sorted(out)}")
+    return out
+
+
+def emit_l1(l1) -> str:
+    L = ["/-- the quadrature call of each branch of `transport_density` (extracted from wasserstein.py) -/",
+         "def l1Source : L1Mode → Except Err RuleSource"]
+    for mode, lean in L1_LEAN.items():
+        v = l1.get(mode) if l1 else None
+        if v is None:
+            L.append(f"  | .{lean} => .error .other")
+        elif v[0] == "corners":
+            L.append(f"  | .{lean} => .ok .corners")
+        else:
+            L.append(f"  | .{lean} => .ok (.cell " + (".max" if v[1] == "max" else f"(.n {v[1]})") + ")")
+    return "\n".join(L) + "\n"
+
+
 # ---------------------------------------------------------------------------
 # evaluation of expressions: 50-digit decimals (validation) and exact rationals where possible
 
@@ -280,7 +339,7 @@ def tabulate_corners(d):
     return out
 
 
-def emit(ex, corners) -> str:
+def emit(ex, corners, l1=None) -> str:
     L = ["import DarsiaModel.Quadrature", "namespace Darsia.Gen", "open Darsia Darsia.Quad", ""]
     L.append("def maxOrder : Nat → Option Nat")
     for dim, o in sorted(ex["max"].items()):
@@ -316,8 +375,25 @@ def emit(ex, corners) -> str:
                  + "], [" + ", ".join(lean_expr(("rat", x)) for x in w) + "]⟩")
     L += [f"  | _ => .error .{ERRMAP.get(ex['default'], 'other')}", ""]
     L.append("def cornerDims : List Nat := [" + ", ".join(str(k) for k, v in sorted(corners.items()) if not isinstance(v, Raised)) + "]")
-    L += ["", "end Darsia.Gen"]
+    L += ["", emit_l1(l1), "end Darsia.Gen"]
     return "\n".join(L) + "\n"
+
+
+def parse_committed_l1(text: str):
+    import re
+
+    out = {}
+    for lean, val in re.findall(r"^  \| \.(\w+) => \.ok (\.corners|\(\.cell [^\n]*\))$", text, re.M):
+        mode = next((k for k, v in L1_LEAN.items() if v == lean), None)
+        if mode is None:
+            continue
+        if val == ".corners":
+            out[mode] = ("corners",)
+        elif ".max" in val:
+            out[mode] = ("cell", "max")
+        else:
+            out[mode] = ("cell", int(re.search(r"\.n (\d+)", val).group(1)))
+    return out
 
 
 def parse_committed(text: str):
@@ -469,6 +545,83 @@ def numeric_correspondence(ctx, d):
     return diffs
 
 
+def consumer(ctx, d):
+    """transport_density / l1_dissipation of the real solver object = sum over the MODEL's rule of the mode (driver) of
+    ||face_to_cell(flux, pt)||; and the bound the rule facts imply: ||flux at the cell centre|| <= transport density."""
+    try:
+        from darsia.measure import wasserstein as W
+    except Exception as e:  # noqa: BLE001
+        ctx.mark("TIE-BROKEN", {"consumer": f"cannot import darsia.measure.wasserstein: {e}"})
+        return
+    rng = np.random.default_rng(ctx.rng.randrange(2**31))
+    shapes = {1: [(4,)], 2: [(3, 3), (3, 2)], 3: [(3, 3, 3)]}
+    if ctx.big:
+        shapes = {1: [(4,), (1,), (7,)], 2: [(3, 2), (1, 4), (4, 4)], 3: [(2, 3, 2), (1, 2, 3), (3, 3, 4)]}
+    reqs = [f"l1rule {m} {dim}" for m in L1_LEAN for dim in DIMS]
+    rules = dict(zip(reqs, ctx.model(reqs)))
+    worst, n, diffs = 0.0, 0, []
+    for mode in L1_LEAN:
+        for dim in DIMS:
+            try:
+                m = parse_model_rule(rules[f"l1rule {mode} {dim}"])
+            except Exception:  # noqa: BLE001
+                m = "!unparsable"
+            for shape in shapes[dim]:
+                dims_phys = [0.5 * s_ for s_ in shape]
+                im = d.Image(np.zeros(shape), space_dim=dim, dimensions=dims_phys, scalar=True)
+                opts = {"l1_mode": W.L1Mode[mode], "linear_solver": "direct", "formulation": "pressure"}
+                solver = call(lambda: W.WassersteinDistanceNewton(d.generate_grid(im), None, opts))
+                ctx.count(("consumer", mode, dim, shape))
+                if isinstance(solver, Raised):
+                    ctx.fail(f"C15:transport_density({mode},dim={dim}):construct", f"solver object cannot be built: {solver!r}", {"call": ["consumer", mode, dim, list(shape)]})
+                    continue
+                grid = solver.grid
+                flux = rng.integers(-8, 9, grid.num_faces).astype(float) / 4.0
+                td = call(solver.transport_density, flux.copy(), False, False)
+                if isinstance(td, Raised) or np.asarray(td).shape != tuple(shape):
+                    ctx.fail(f"C15:transport_density({mode},dim={dim}):raises", f"transport_density: {td!r}"[:200], {"call": ["consumer", mode, dim, list(shape)], "flux": flux.tolist()})
+                    continue
+                centre = np.linalg.norm(d.face_to_cell(grid, flux), 2, axis=-1)
+                n += 1
+                if not np.all(centre <= td + 1e-12 * max(1.0, float(np.max(td)))):
+                    c = int(np.argmax(centre - td))
+                    ctx.fail(f"C15:transport_density({mode},dim={dim}):below-mean-flux", "transport density of a cell is smaller than the norm of its mean (centre) flux: "
+                             "the rule is not exact for linears or has a negative weight",
+                             {"call": ["consumer", mode, dim, list(shape)], "flux": flux.tolist(), "cell": c, "density": float(td.ravel()[c]), "norm_mean_flux": float(centre.ravel()[c])})
+                # a flux that is constant inside a cell (same value on all faces of an axis; interior cells): the weights sum to 1,
+                # so the density must be exactly the norm of that flux
+                if all(s_ >= 3 for s_ in shape):
+                    fa = rng.integers(-8, 9, dim).astype(float) / 4.0
+                    cflux = np.zeros(grid.num_faces)
+                    for a in range(dim):
+                        cflux[grid.faces[a]] = fa[a]
+                    tdc = call(solver.transport_density, cflux.copy(), False, False)
+                    inner = tuple(slice(1, -1) for _ in range(dim))
+                    if isinstance(tdc, Raised) or not np.allclose(np.asarray(tdc)[inner], np.linalg.norm(fa), rtol=0, atol=1e-13 * max(1.0, np.linalg.norm(fa))):
+                        ctx.fail(f"C15:transport_density({mode},dim={dim}):constant-flux", "a flux that is constant in a cell must give density = its norm (weights sum to 1)",
+                                 {"call": ["consumer", mode, dim, list(shape)], "face_flux_per_axis": fa.tolist(), "required": float(np.linalg.norm(fa)),
+                                  "observed": repr(tdc)[:200] if isinstance(tdc, Raised) else np.asarray(tdc)[inner].ravel().tolist()[:5]})
+                if isinstance(m, str):
+                    diffs.append((mode, dim, "model has no rule", m))
+                    continue
+                pts, w = m
+                ref = np.zeros(shape)
+                for pt, wq in zip(pts, w):
+                    ref += wq * np.linalg.norm(d.face_to_cell(grid, flux, pt=np.array(pt) if dim > 1 else pt[0]), 2, axis=-1)
+                e = float(np.max(np.abs(ref - td))) / max(1.0, float(np.max(np.abs(td))))
+                worst = max(worst, e)
+                if not e <= 1e-13:
+                    diffs.append((mode, dim, list(shape), e))
+                tot = call(solver.l1_dissipation, flux.copy())
+                vol = float(np.prod([a / b for a, b in zip(dims_phys, shape)]))
+                if isinstance(tot, Raised) or not abs(float(tot) - vol * float(ref.sum())) <= 1e-12 * max(1.0, abs(float(tot))):
+                    diffs.append((mode, dim, list(shape), "l1_dissipation", repr(tot)))
+    ctx.cov.setdefault("correspondence", {})["transport_density-vs-model-rule"] = {"cases": n, "disagreements": len(diffs), "max_rel_diff": worst, "tolerance": 1e-13}
+    if diffs:
+        ctx.mark("CORR-BROKEN", {"correspondence": "transport_density-vs-model-rule", "n_diffs": len(diffs), "first": list(map(str, diffs[0]))})
+        ctx.log("consumer correspondence: disagreements", diffs[:3])
+
+
 # ---------------------------------------------------------------------------
 # property oracle on the implementation (direct transcription of the statement)
 
@@ -559,6 +712,35 @@ def replay(data):
     import darsia as d
 
     rp = data.get("replay", data)
+    if rp["call"][0] == "consumer":
+        from darsia.measure import wasserstein as W
+
+        _, mode, dim, shape = rp["call"]
+        im = d.Image(np.zeros(shape), space_dim=dim, dimensions=[0.5 * s_ for s_ in shape], scalar=True)
+        solver = W.WassersteinDistanceNewton(d.generate_grid(im), None, {"l1_mode": W.L1Mode[mode], "linear_solver": "direct", "formulation": "pressure"})
+        grid = solver.grid
+        if "flux" in rp:
+            flux = np.array(rp["flux"], dtype=float)
+            need = np.linalg.norm(d.face_to_cell(grid, flux), 2, axis=-1)
+            clause = "density >= norm of the centre flux, every cell"
+        else:
+            fa = np.array(rp["face_flux_per_axis"], dtype=float)
+            flux = np.zeros(grid.num_faces)
+            for a in range(dim):
+                flux[grid.faces[a]] = fa[a]
+            need = None
+            clause = "density == norm of the constant flux, interior cells"
+        td = call(solver.transport_density, flux.copy(), False, False)
+        if isinstance(td, Raised):
+            bad = True
+        elif need is not None:
+            bad = not np.all(need <= td + 1e-12 * max(1.0, float(np.max(td))))
+        else:
+            inner = tuple(slice(1, -1) for _ in range(dim))
+            bad = not np.allclose(np.asarray(td)[inner], np.linalg.norm(fa), rtol=0, atol=1e-13 * max(1.0, np.linalg.norm(fa)))
+        print(json.dumps({"call": rp["call"], "clause": clause, "density": repr(td) if isinstance(td, Raised) else np.asarray(td).ravel().tolist(),
+                          "norm_centre_flux": None if need is None else need.ravel().tolist(), "still_failing": bool(bad)}, indent=1))
+        return 1 if bad else 0
     fname, dim, *rest = rp["call"]
     fn = getattr(d.quadrature, fname)
     r = impl_rule(fn, dim, *rest)
@@ -574,6 +756,8 @@ def run(ctx):
     for f in sorted((Path(__file__).resolve().parents[2] / "corpus" / "C15").glob("*.json")):
         data = json.loads(f.read_text())
         rp = data.get("replay", data)
+        if rp["call"][0] == "consumer":
+            continue
         fname, dim, *rest = rp["call"]
         kind = {"gauss": "gauss", "gauss_reference_cell": "cell", "reference_cell_corners": "corners"}[fname]
         bad = check_rule(kind, dim, rp.get("nominal_order", 1), impl_rule(getattr(d.quadrature, fname), dim, *rest))
@@ -581,6 +765,18 @@ def run(ctx):
             ctx.fail(f"C15:{fname}(dim={dim},order={rest[0] if rest else ''}):{bad[0]}", bad[1], rp)
 
     src = REPO / "src" / "darsia" / "utils" / "quadrature.py"
+    try:
+        l1 = extract_l1((REPO / "src" / "darsia" / "measure" / "wasserstein.py").read_text())
+        ctx.cov["g2_l1_modes"] = {k: list(map(str, v)) for k, v in l1.items()}
+    except (ExtractError, OSError, SyntaxError, AttributeError, IndexError) as e:
+        # the consumer left the accepted subset: keep the committed table; the numeric consumer correspondence below decides
+        try:
+            from ..lib.core import LEAN as _LEAN
+
+            l1 = parse_committed_l1((_LEAN / "DarsiaGen" / "QuadratureTables.lean").read_text())
+        except Exception:  # noqa: BLE001
+            l1 = {}
+        ctx.notes.append(f"transport_density not extractable ({str(e)[:120]}); committed l1Source used and validated numerically")
     try:
         ex = extract(src.read_text())
         ctx.cov["g2_extraction"] = {"branches": len(ex["rules"]), "max_alias": {str(k): v for k, v in ex["max"].items()}}
@@ -603,7 +799,7 @@ def run(ctx):
             ctx.cov["tie"] = "G2-unavailable, validated-against-running-code" if ok else "G2-unavailable, committed table does not match the running code"
         else:
             ctx.cov["tie"] = "G2 extraction from the source, validated against the running gauss()"
-            ctx.write_gen("QuadratureTables", emit(ex, tabulate_corners(d)))
+            ctx.write_gen("QuadratureTables", emit(ex, tabulate_corners(d), l1))
     ctx.prove("C15")
     if ex is not None:
         # which obligation fails (diagnostics; directs nothing - the oracle is exhaustive anyway)
@@ -611,6 +807,7 @@ def run(ctx):
         res = ctx.model([f"check {a} {b}" for a, b in acc] + [f"checkc {k}" for k in DIMS])
         ctx.cov["obligations_by_table"] = {f"{a},{b}": r for (a, b), r in zip(acc, res)} | {f"corners,{k}": r for k, r in zip(DIMS, res[len(acc):])}
         numeric_correspondence(ctx, d)
+        consumer(ctx, d)
     accepted = oracle(ctx, d)
     ctx.cov["exhaustive"] = True
     ctx.cov["accepted_by_api"] = [list(map(str, a)) for a in accepted]
@@ -619,5 +816,5 @@ def run(ctx):
     ctx.assumptions += [
         "numpy evaluates the literal table expressions in IEEE doubles: symbolic value vs float within 1e-15 (measured on every run)",
         "oracle tolerance on float moments 2e-14 * measure (sums of <= 27 terms of size <= 8)",
-        "N-D exactness is stated for monomials / finite sums thereof with the product of 1-D interval integrals",
+        "N-D polynomials are term lists (coefficient, exponents); d = 2, 3 against iterated interval integrals",
     ]
